@@ -157,6 +157,22 @@ def run_child(i, extra):
     return r
 
 
+def run_jump(i, extra):
+    """The host's wall clock is stepped forwards or backwards (once or twice) while executions run: deadlines computed
+    afterwards move with it, so an execution may time out or wait longer - but each still ends exactly once."""
+    seed = common.run_seed(9300000 + i)
+    rng = random.Random(seed)
+    cfg = E.swarm_config(rng, POLICIES, ttls=(600, 3600), max_nodes=1, stores=("file", "file", "redis"),
+                         transports=("asyncio", "asyncio", "blocking"))
+    scn, models, skipped = E.gen_multi(rng, ["sequential", "fanout_ok", "general", "timing", "timing_fanout"], extra["tier"], 3, cfg)
+    scn["faults"] = [{"kind": "clock-jump", "at": rng.choice([0.2, 0.7, 1.1, 1.6, 2.4, 3.5]),
+                      "delta": rng.choice([-40.0, -7.5, -2.0, -0.5, 0.5, 2.0, 7.5, 40.0, 700.0])}
+                     for _ in range(rng.choice([1, 1, 2]))]
+    r = check(scn, seed, None, skipped)
+    r.setdefault("probes", {})["clock-jump:runs"] = 1
+    return r
+
+
 def run_long(i, extra):
     seed, scn = make_long(i)
     r = check(scn, seed)
@@ -212,6 +228,8 @@ def main(argv):
         rep.absorb(r)
     for r in common.run_batch("checks.c02", "run_child", range(600 if tier == "quick" else 20000), {"tier": tier}):
         rep.absorb(r)
+    for r in common.run_batch("checks.c02", "run_jump", range(400 if tier == "quick" else 16000), {"tier": tier}):
+        rep.absorb(r)
     return rep.finish(
         rule="1-4 concurrent executions of independently generated machines (families %s) per simulated run, started "
              "through the real StartExecution handler on 1-2 engine instances, under a seeded schedule policy "
@@ -219,10 +237,10 @@ def main(argv):
              "invariants are polled after every scheduler step, and every started execution must be terminal when the "
              "run is quiescent; a second slice runs executions that last about as long as or longer than execution_ttl "
              "(Wait / slow Task / Parallel / Map, machine TimeoutSeconds below, at or above the duration; file and "
-             "Redis stores, where the stored record expires under the running execution); a third slice starts parents that launch child executions in every launch form (async, .sync, .sync:2, aws-sdk startSyncExecution; top level, in a Parallel branch, in a Map iterator) whose children end by their own TimeoutSeconds inside a Wait / slow Task / Parallel / Map, fail, or outlive the parent's Task time-out - parent and child alike must end exactly once; executions the reference model places in C06's families (several or handled branch "
+             "Redis stores, where the stored record expires under the running execution); a third slice starts parents that launch child executions in every launch form (async, .sync, .sync:2, aws-sdk startSyncExecution; top level, in a Parallel branch, in a Map iterator) whose children end by their own TimeoutSeconds inside a Wait / slow Task / Parallel / Map, fail, or outlive the parent's Task time-out - parent and child alike must end exactly once; a fourth slice steps the host's wall clock forwards/backwards once or twice during the run (exactly-once end and liveness only); executions the reference model places in C06's families (several or handled branch "
              "failures, nested failures) are regenerated; distinct = distinct (scenario, interleaving) hashes" % (
                  sorted(set(FAMILIES)), ", ".join(POLICIES)),
-        assumptions=["no faults injected (crash/restart is C04)", "file store with one instance, Redis store with 1-2 instances, both transports", "legal schedules only: per-queue FIFO, timers never early"])
+        assumptions=["no crash/restart faults (C04); one slice steps the wall clock (+-0.5 .. 40 s, +700 s) while executions run", "file store with one instance, Redis store with 1-2 instances, both transports", "legal schedules only: per-queue FIFO, timers never early"])
 
 
 def replay(path):
